@@ -259,6 +259,8 @@ def enc_r(progs):
             P = A.Parents(body)
             for i, n in enumerate(reads):
                 par, slot = P.parent(n)
+                while par is not None and par.get('k') == 'cast':        # implicit lvalue-to-rvalue / integral conversions
+                    par, slot = P.parent(par)
                 # skip: stores (lhs), comparisons (== != < with max / _capa), by-reference arguments (stores)
                 if par is None:
                     continue
@@ -271,6 +273,8 @@ def enc_r(progs):
                     continue
                 if pk == 'call' and A.cshort(par) in ('swap', 'exchange', 'swap_sizetype'):
                     continue          # joint transfer (ENC-W)
+                if pk == 'bin' and par.get('op') == '=' and slot == 'rhs' and _is_field(A.strip(par.get('lhs')), '_size'):
+                    continue          # `_size = o._size`: the word is transferred as it is, not interpreted (joint transfer: ENC-W)
                 kind, r = A.root(n.get('base'), linit)
                 obj = 'this' if kind == 'this' else (r.get('name') or kind)
                 ok = False
